@@ -295,6 +295,91 @@ def composite_harness(fn, quadrant):
     return h
 
 
+def structure_harness(fn, quadrant):
+    """casin / cacos fallback bodies (Hull et al.): which libm function receives which argument.  With A = (|z+1| + |z-1|)/2 and
+    B = |Re z|/A the principal value is asin B (acos B) + i log(A + sqrt(A^2-1)) up to the quadrant fix-up.  On every path:
+      * real part from asin/acos: the argument t satisfies t*A = |Re z|;
+      * real part from atan: with q = sqrt(D) the square root the body took, either t*q = x and D = A^2-x^2 (or, in the
+        |Re z| > 1 form, t*q*y = x and D*y^2 = A^2-x^2), i.e. t = B/sqrt(1-B^2) = tan(asin B); the reciprocal for acos;
+      * imaginary part: the argument of log is a + q2 with a = A and q2 = sqrt(D2), D2 = A^2-1; the argument of log1p is
+        am1 + q2 with am1 = A-1, D2 = A^2-1 - so it equals A (-1) + sqrt(A^2-1);
+      * the quadrant fix-up of the two libm results.
+    These are algebraic identities in x, y and the two moduli, decided by nlsat on the path condition without the
+    constraints that only describe libm results (a subset of the assumptions: a stronger statement; the exact query is the
+    fallback).  Configuration: complex functions on their fallback bodies, real functions bound to libm (hypot, log1p by contract)."""
+    def h(ex):
+        tr = Tr(ex, "")
+        set_mode(ex)
+        u = libm(ex)
+        ex.path_tags = [fn, quadrant, "structure"]
+        sx, sy = quadrant
+        x, y = ex.fresh_real("absre"), ex.fresh_real("absim")          # |Re z|, |Im z| are the symbols; z = (+-x, +-y)
+        ex.assume(conj([rlt(ZERO, x), rlt(ZERO, y)]))
+        z = Z(ex, tr, "z", x if sx == "+" else sub(ZERO, x), y if sy == "+" else sub(ZERO, y))
+        conc = ex.concrete is not None
+        memo = {}
+
+        def lean_hypot(ex, a, b):               # r >= 0, r^2 = a^2 + b^2 and linear consequences, no absolute values; a function: same arguments, same value
+            if conc:
+                return Fraction(math.hypot(float(a), float(b)))
+            key = (R(a).get_id(), R(b).get_id())
+            if key not in memo:
+                r = ex.fresh_real("hypot")
+                ex.add(z3.And(r >= 0, r * r == R(a) * R(a) + R(b) * R(b), r >= R(a), r >= -R(a), r >= R(b), r >= -R(b)))
+                memo[key] = r
+            return memo[key]
+        ex.hooks["hypot"] = lean_hypot
+        roots = []
+        base_sqrt = ex.hooks["sqrt"]
+
+        def rec_sqrt(ex, v):
+            q = base_sqrt(ex, v)
+            roots.append((ex.as_real(v), q))
+            return q
+        ex.hooks["sqrt"] = ex.hooks["llvm.sqrt.f64"] = rec_sqrt
+        tr.call("a_complex_%s_" % fn, z.addr, ret="void")
+        re, im = z.get()
+        rr, ss = lean_hypot(ex, add(x, ONE), y), lean_hypot(ex, sub(x, ONE), y)
+        A = mul(Fraction(1, 2), add(rr, ss))
+        A2m1 = sub(mul(A, A), ONE)
+        d = sub(mul(A, A), mul(x, x))           # A^2 - x^2 = A^2 (1 - B^2) > 0 off the axes
+        LIBM = ("atan!", "asin!", "acos!", "log!", "log1p!")
+        keep = lambda q: not any(n.startswith(LIBM) for n in core.var_names(q))
+        chk = (lambda c, lab: ex.check(c, lab)) if conc else (lambda c, lab: ex.check_abs(c, lab, keep=keep, timeout_ms=30000))
+        prim = u[fn].calls          # asin or acos
+        at = u["atan"].calls
+        ex.check(len(prim) + len(at) == 1, "c%s:real-part-not-from-exactly-one-of-%s/atan" % (fn, fn))
+        if prim:
+            t, ur = prim[0]
+            chk(req(mul(t, A), x), "c%s:argument-of-%s-is-not-|Re z|/A" % (fn, fn))
+        else:
+            t, ur = at[0]
+            ex.check(len(roots) >= 1, "c%s:atan-branch-without-a-square-root" % fn)
+            D, q = roots.pop(0)
+            lab = "c%s:argument-of-atan-is-not-%s" % (fn, "B/sqrt(1-B^2)" if fn == "asin" else "sqrt(1-B^2)/B")
+            # which of the two forms the body used is a cheap question (t is x/q, x/(q*y), q/x or q*y/x syntactically)
+            lhs = mul(t, q) if fn == "asin" else mul(t, x)
+            if (req(lhs, x if fn == "asin" else q) is True) if conc else ex.prove(req(lhs, x if fn == "asin" else q), keep=keep):
+                chk(req(D, d), lab)
+            else:
+                chk(req(mul(lhs, y), x) if fn == "asin" else req(lhs, mul(q, y)), lab + "-(form)")
+                chk(req(mul(D, mul(y, y)), d), lab)
+        lg, l1 = u["log"].calls, u["log1p"].calls
+        ex.check(len(lg) + len(l1) == 1 and len(roots) == 1, "c%s:imaginary-part-not-from-exactly-one-of-log/log1p-with-one-square-root" % fn)
+        D2, q2 = roots[0]
+        t, ui = (lg or l1)[0]
+        chk(conj([req(sub(t, q2), A if lg else sub(A, ONE)), req(D2, A2m1)]),
+            "c%s:argument-of-%s-is-not-A%s+sqrt(A^2-1)" % (fn, "log" if lg else "log1p", "" if lg else "-1"))
+        # quadrant fix-up of the two libm results
+        if fn == "asin":
+            ex.check(req(re, ur if sx == "+" else sub(ZERO, ur)), "casin:real-part-is-not-sign(Re z)*asin(B)")
+            ex.check(req(im, ui if sy == "+" else sub(ZERO, ui)), "casin:imaginary-part-is-not-sign(Im z)*log(...)")
+        else:
+            ex.check(req(re, ur if sx == "+" else sub(PI, ur)), "cacos:real-part-is-not-acos(B)-or-pi-acos(B)")
+            ex.check(req(im, sub(ZERO, ui) if sy == "+" else ui), "cacos:imaginary-part-is-not--sign(Im z)*log(...)")
+    return h
+
+
 def real_arg_harness(fn):
     """The real-argument variants on their intervals obey the same table."""
     def h(ex):
@@ -433,6 +518,8 @@ def builder(p):
         return "principal/%s/%s%s" % (p[1], p[2][0], p[2][1]), principal_harness(p[1], p[2])
     if k == "composite":
         return "composite/%s/%s%s" % (p[1], p[2][0], p[2][1]), composite_harness(p[1], p[2])
+    if k == "structure":
+        return "structure/%s/%s%s" % (p[1], p[2][0], p[2][1]), structure_harness(p[1], p[2])
     if k == "realarg":
         return "realarg/" + p[1], real_arg_harness(p[1])
     if k == "compose":
@@ -450,6 +537,7 @@ def main():
     quads = [("+", "+"), ("-", "+"), ("-", "-"), ("+", "-")]
     fb = [("principal", f, q) for f in ("sqrt", "atan", "atanh", "log") for q in quads]
     fb += [("composite", f, q) for f in ("asinh", "acosh") for q in quads]
+    STRUCT = [("structure", f, q) for f in ("asin", "acos") for q in quads]
     hard = [("principal", f, q) for f in ("asin", "acos") for q in quads]       # attempted in the thorough tier only, droppable
     fb += [("realarg", f) for f in ("sqrt", "asin", "acos", "acosh", "atanh")]
     fb += [("compose", k) for k in ("log2", "log10", "sec", "csc", "cot", "sech", "csch", "coth")]
@@ -460,14 +548,18 @@ def main():
     if T == "thorough":
         o2 = dict(opts, time_budget=1500, droppable=True)
         e2.run_e2(res, cfg_none, srcs, hard, builder, group="fallback-direct", **o2)
+    # third configuration: complex functions on their fallback bodies, real functions bound to libm (the real fallbacks belong to C11)
+    cfg_mixed = gen_config(have=[h for h in ALL_HAVE if not h.startswith("C")])
+    e2.run_e2(res, cfg_mixed, srcs, STRUCT, builder, group="fallback-structure", **dict(opts, exec_attrs={"force_solver": True, "branch_real_select": True}, droppable=True, time_budget=900 if T == "quick" else 3000))
     e2.run_e2(res, cfg_all, srcs, arith + [("libm", f) for f in LIBM_C], builder, group="libm-bound", **opts)
     res.functions.update(["a_complex_add/sub/mul/div/inv/conj/neg and all _real/_imag/in-place forms", "a_complex_abs/abs2/arg/polar",
                           "fallback bodies of a_complex_{sqrt,asin,acos,atan,asinh,acosh,atanh,log,log2,log10,sec,csc,cot,sech,csch,coth}_ and the *_real variants",
                           "libm-bound wrappers: " + ", ".join(LIBM_C), "constants of a/math.h"])
-    res.bounds = {"configurations": "all A_HAVE_* switches off (every fallback body, the configuration the test suite never compiles) and all on (plumbing)",
+    res.bounds = {"configurations": "all A_HAVE_* switches off (every fallback body, the configuration the test suite never compiles), all on (plumbing), and complex switches off with the real ones on (structure of the casin/cacos bodies)",
                   "arguments": "all real z (and scalars) off the axes / cuts, one open quadrant per instance"}
     res.outside = ["the accuracy clause ('within a small multiple of machine precision scaled by conditioning') for every transcendental evaluation - no installed solver decides it",
                    "exp o log = identity to rounding", "float / long double instantiations", "values ON the branch cuts", "a_complex_pow*, a_complex_exp, trigonometric/hyperbolic forward functions beyond the reciprocal relation",
+                   "casin/cacos fallback bodies: decided is WHICH argument each libm call receives (asin/acos: B = |Re z|/A; atan: B/sqrt(1-B^2) or its reciprocal; log: A+sqrt(A^2-1); log1p: that minus 1) and the quadrant fix-up, as algebraic identities; together with the libm contracts this is the principal value in the reals, the evaluation error is outside",
                    "direct proof of the Annex G table for the fallback bodies of casin / cacos (z3 nlsat: no verdict within 120 s per query; attempted in the thorough tier and listed under dropped_from_claim) - the composites casinh / cacosh are checked against that table as a contract"]
     res.assumptions = ["libm reals are fresh values constrained by sign / range / monotonicity / parity contracts (ISO C F.10) per call site", "hypot(x,y) = sqrt(x^2+y^2) exactly; sqrt(x) = y >= 0 with y*y = x",
                        "sign clauses are stated weakly ('never the opposite sign') so that underflow to zero is not an alarm"]
